@@ -19,15 +19,23 @@ package options
 import (
 	"fmt"
 	"regexp"
+	"sort"
 	"strings"
 )
 
 // SubstituteVariables will perform variable substitution according to a substitution map.
 // Example: SubstituteVariables("echo ${job.name}", map[string]string{"job.name": "jobconfig-sample.1650645000"})
 func SubstituteVariables(target string, submap map[string]string) string {
-	for name, value := range submap {
+	// Substitute in a fixed order, otherwise the result depends on the map iteration
+	// order whenever a value itself contains another variable of the same map.
+	names := make([]string, 0, len(submap))
+	for name := range submap {
+		names = append(names, name)
+	}
+	sort.Strings(names)
+	for _, name := range names {
 		search := fmt.Sprintf("${%v}", name)
-		target = strings.ReplaceAll(target, search, value)
+		target = strings.ReplaceAll(target, search, submap[name])
 	}
 	return target
 }
